@@ -478,7 +478,7 @@ func runCase(rt *rapid.T, c *drv.Case) {
 }
 
 func TestPropDeterminism(t *testing.T) {
-	drv.Check(t, drv.Cfg{Name: "determinism+export", Rule: rule, Quick: 60, Thorough: 2000}, runCase)
+	drv.Check(t, drv.Cfg{Name: "determinism+export", Rule: rule, Quick: 60, Thorough: 700}, runCase)
 }
 
 // TestReplayPlan re-executes a saved plan (VERIF_REPLAY_FILE) on fresh nodes several times.
